@@ -90,7 +90,7 @@ def build(k, shape, ghost):
 def name_of(shape):
     vs = ",".join("%s%s" % (T, "*" if f else "") for _, T, f in shape["vertices"])
     pos = {vid: i for i, (vid, _, _) in enumerate(shape["vertices"])}
-    es = ",".join("%s%s(%s)" % (kind[0], m if kind == "cut" else "", "".join("abc"[pos[i]] for i in ids)) for kind, ids, m in shape["edges"])
+    es = ",".join("%s%s(%s)" % (kind[0], m if kind == "cut" else "", "".join("abcdefgh"[pos[i]] for i in ids)) for kind, ids, m in shape["edges"])
     return "[%s]{%s}ids%d%s" % (vs, es or "-", shape["idset"], "" if shape["fix_first_pose"] else "/nofix")
 
 
